@@ -105,7 +105,7 @@ def run(ctx):
 
     # ---- R4 flush --------------------------------------------------------------------------------------
     ctx.rule("C07.R4", "flush emits the pending block iff it holds bytes or records, and always flushes the stream", floor=2)
-    flush_rule(ctx, a, W.methods["flush"], "C07.R4")
+    flush_rule(ctx, a, p.find_method(W, "flush"), "C07.R4")
 
     # ---- R5 append never rewrites the header ---------------------------------------------------------
     ctx.rule("C07.R5", "append arm: write_header unreachable; schema, name table, sync marker and block writer come from the existing file's header; seek to the end precedes any write", floor=6)
